@@ -14,6 +14,7 @@ import (
 	"sort"
 	"strconv"
 	"strings"
+	"testing/iotest"
 
 	"github.com/iDigitalFlame/xmt/com"
 	"github.com/iDigitalFlame/xmt/data"
@@ -363,6 +364,25 @@ type chunkReader struct {
 	every int
 	cur   int // bytes left in the current chunk, -1: take the next chunk
 	reads int
+	// how the stream ends (Model/Packet.v fin): eofLast: the Read that delivers the last byte of
+	// the data also returns io.EOF; failEnd: one (0, failEnd) after the data, then (0, io.EOF)
+	eofLast bool
+	failEnd error
+	failed  bool
+}
+
+var errTimeout = errors.New("verif: read timeout")
+
+// fmode of Model/Packet.v esplit: 0 plain, 1 last chunk with io.EOF, 13 failing Read after the data
+func newEndReader(b []byte, sp split, fmode int) *chunkReader {
+	r := newChunkReader(b, sp)
+	switch fmode {
+	case 1:
+		r.eofLast = true
+	case 13:
+		r.failEnd = errTimeout
+	}
+	return r
 }
 
 func newChunkReader(b []byte, sp split) *chunkReader {
@@ -375,6 +395,10 @@ func (r *chunkReader) Read(p []byte) (int, error) {
 	if r.cur < 0 {
 		rem := len(r.data) - r.pos
 		if rem <= 0 {
+			if r.failEnd != nil && !r.failed {
+				r.failed = true
+				return 0, r.failEnd
+			}
 			return 0, io.EOF
 		}
 		switch {
@@ -395,6 +419,9 @@ func (r *chunkReader) Read(p []byte) (int, error) {
 	r.pos += n
 	if r.cur -= n; r.cur == 0 {
 		r.cur = -1
+		if r.eofLast && r.pos >= len(r.data) {
+			return n, io.EOF
+		}
 	}
 	return n, nil
 }
@@ -510,6 +537,8 @@ func errCode(err error) int {
 		return 11
 	case strings.Contains(err.Error(), "tags list is too large"):
 		return 12
+	case errors.Is(err, errTimeout), errors.Is(err, iotest.ErrTimeout):
+		return 13
 	}
 	return 99
 }
@@ -645,6 +674,8 @@ func wireCases(p *pdesc, mode int) {
 	for _, sp := range sps {
 		doUnmarshal(input, segs, sp, p, len(enc), "unmarshal-"+lenClass(p.pay.n)+"-"+sp.name)
 	}
+	endCases(enc, p, false, mode, len(enc)-p.pay.n)
+	ioCases(enc, p, false)
 }
 
 // concatenated packets on one stream
@@ -749,6 +780,10 @@ func streamCases(p *pdesc, mode int) {
 	for _, sp := range sps {
 		doUnmarshalSrd(input, segs, sp, p, len(enc), "ustream-reader-"+lenClass(p.pay.n)+"-"+sp.name)
 	}
+	if mode != 3 {
+		endCases(enc, p, true, mode, len(enc)-p.pay.n)
+	}
+	ioCases(enc, p, true)
 }
 
 // UnmarshalStream from a Packet used as the container (flat Chunk reader)
@@ -1175,7 +1210,7 @@ func main() {
 		}
 	}
 	// random structured packets
-	nr := 90
+	nr := 70
 	if thorough {
 		nr = 2000
 	}
